@@ -13,6 +13,7 @@ package main
 
 import (
 	"go/token"
+	"go/types"
 	"sort"
 	"strings"
 
@@ -25,8 +26,10 @@ type Lit struct {
 	Pos  bool
 	Val  ssa.Value // the leaf condition value (nil for compound keys)
 	Fn   *ssa.Function
-	Kind string // "cond", "eq", "lt", "or", "and"
+	Kind string // "cond", "eq", "lt", "or", "and", "rangeloop", "rangefunc"
 	X, Y ssa.Value // operands for eq / lt
+	Subs []Lit // for compound literals: the sub-literals (each with its own polarity inside the compound)
+	Via  string // helper function this literal was expanded from ("" if direct)
 }
 
 func (l Lit) String() string {
@@ -180,11 +183,13 @@ func literals(f *formula, val bool) []Lit {
 		}
 		// compound literal
 		var keys []string
+		var subs []Lit
 		for _, s := range f.sub {
 			keys = append(keys, formulaKey(s))
+			subs = append(subs, literals(s, true)...)
 		}
 		sort.Strings(keys)
-		return []Lit{{Key: f.op + "(" + strings.Join(keys, ", ") + ")", Pos: val, Kind: f.op}}
+		return []Lit{{Key: f.op + "(" + strings.Join(keys, ", ") + ")", Pos: val, Kind: f.op, Subs: subs}}
 	}
 	return nil
 }
@@ -242,6 +247,60 @@ func (P *Program) guardsOf(fn *ssa.Function) *funcGuards {
 			}
 			e := edge{b, b.Succs[k]}
 			g.edgeLits[e] = append(g.edgeLits[e], lits...)
+		}
+	}
+	// short-circuit chains lowered to branches:  if c0 && c1 && ... { R } else { T }  /  if c0 || c1 ... { T }
+	// every edge into the common target T carries the compound literal -and(c0..cn) resp. +or(c0..cn)
+	isIf := func(b *ssa.BasicBlock) *ssa.If {
+		ifi, ok := lastInstr(b).(*ssa.If)
+		if !ok || len(b.Succs) != 2 || b.Succs[0] == b.Succs[1] {
+			return nil
+		}
+		return ifi
+	}
+	for _, a0 := range fn.Blocks {
+		if isIf(a0) == nil {
+			continue
+		}
+		for side := 0; side < 2; side++ { // side 0: AND-chain (continue on true, exit T on false); side 1: OR-chain
+			T := a0.Succs[1-side]
+			chain := []*ssa.BasicBlock{a0}
+			cur := a0
+			for {
+				nxt := cur.Succs[side]
+				if isIf(nxt) == nil || len(nxt.Preds) != 1 || nxt.Succs[1-side] != T || nxt == a0 {
+					break
+				}
+				chain = append(chain, nxt)
+				cur = nxt
+			}
+			if len(chain) < 2 {
+				continue
+			}
+			for n := 2; n <= len(chain); n++ {
+				sub := chain[:n]
+				if sub[n-1].Succs[side] == T {
+					continue
+				}
+				var fs []*formula
+				for _, b := range sub {
+					fs = append(fs, P.condFormula(isIf(b).Cond, 0))
+				}
+				op := "and"
+				if side == 1 {
+					op = "or"
+				}
+				comp := &formula{op: op, sub: fs}
+				lits := literals(comp, side == 1)
+				for i := range lits {
+					lits[i].Fn = fn
+					g.all[lits[i].String()] = lits[i]
+				}
+				for _, b := range sub {
+					e := edge{b, T}
+					g.edgeLits[e] = append(g.edgeLits[e], lits...)
+				}
+			}
 		}
 	}
 	P.fg[fn] = g
@@ -416,4 +475,169 @@ func isJumpCond(v ssa.Value) bool {
 		}
 	}
 	return false
+}
+
+// ---------------------------------------------------------------------------------------------
+// Predicate summaries: what a product function returning bool implies when it returns true / false.
+
+type boolSum struct {
+	ok        bool
+	trueLits  []Lit
+	falseLits []Lit
+	returns   []boolReturn
+}
+
+type boolReturn struct {
+	ret      *ssa.Return
+	val      ssa.Value
+	guards   []Lit
+	mayTrue  bool
+	mayFalse bool
+}
+
+func constBool(v ssa.Value) (val bool, isConst bool) {
+	c, ok := v.(*ssa.Const)
+	if !ok || c.Value == nil {
+		return false, false
+	}
+	s := c.Value.ExactString()
+	if s == "true" {
+		return true, true
+	}
+	if s == "false" {
+		return false, true
+	}
+	return false, false
+}
+
+func (P *Program) BoolSummary(fn *ssa.Function) *boolSum {
+	if P.boolSums == nil {
+		P.boolSums = map[*ssa.Function]*boolSum{}
+	}
+	if s, ok := P.boolSums[fn]; ok {
+		return s
+	}
+	s := &boolSum{}
+	P.boolSums[fn] = s
+	if fn == nil || len(fn.Blocks) == 0 || fn.Signature.Results().Len() != 1 {
+		return s
+	}
+	if b, ok := fn.Signature.Results().At(0).Type().Underlying().(*types.Basic); !ok || b.Kind() != types.Bool {
+		return s
+	}
+	firstT, firstF := true, true
+	var tl, fl litSet
+	allInstrs(fn, func(b *ssa.BasicBlock, ins ssa.Instruction) {
+		r, ok := ins.(*ssa.Return)
+		if !ok || len(r.Results) != 1 {
+			return
+		}
+		v := r.Results[0]
+		br := boolReturn{ret: r, val: v, guards: P.BlockGuards(b), mayTrue: true, mayFalse: true}
+		if cv, isC := constBool(v); isC {
+			br.mayTrue, br.mayFalse = cv, !cv
+		}
+		s.returns = append(s.returns, br)
+		f := P.condFormula(v, 0)
+		if br.mayTrue {
+			set := newLitSet(br.guards)
+			if _, isC := constBool(v); !isC {
+				set = set.union(newLitSet(literals(f, true)))
+			}
+			if firstT {
+				tl, firstT = set, false
+			} else {
+				tl = tl.intersect(set)
+			}
+		}
+		if br.mayFalse {
+			set := newLitSet(br.guards)
+			if _, isC := constBool(v); !isC {
+				set = set.union(newLitSet(literals(f, false)))
+			}
+			if firstF {
+				fl, firstF = set, false
+			} else {
+				fl = fl.intersect(set)
+			}
+		}
+	})
+	s.ok = len(s.returns) > 0
+	s.trueLits = tl.list()
+	s.falseLits = fl.list()
+	return s
+}
+
+// Expand adds, for every literal that is a call of a product bool function, the literals its result implies.
+func (P *Program) Expand(lits []Lit) []Lit {
+	out := append([]Lit{}, lits...)
+	seen := map[string]bool{}
+	for _, l := range out {
+		seen[l.String()] = true
+	}
+	for i := 0; i < len(out) && i < 400; i++ {
+		l := out[i]
+		c := litCall(l)
+		if c == nil {
+			continue
+		}
+		callee := c.Call.StaticCallee()
+		if callee == nil || !P.IsProductFunc(callee) || len(callee.Blocks) == 0 {
+			continue
+		}
+		sum := P.BoolSummary(callee)
+		if !sum.ok {
+			continue
+		}
+		add := sum.falseLits
+		if l.Pos {
+			add = sum.trueLits
+		}
+		for _, a := range add {
+			if a.Kind == "rangeloop" || a.Kind == "rangefunc" {
+				continue
+			}
+			a.Via = FuncName(callee)
+			if !seen[a.String()] {
+				seen[a.String()] = true
+				out = append(out, a)
+			}
+		}
+	}
+	return out
+}
+
+// BlockCutBy: does every path from entry to b take an edge carrying a literal that satisfies pred?
+func (P *Program) BlockCutBy(b *ssa.BasicBlock, pred func(Lit) bool) bool {
+	fn := b.Parent()
+	g := P.guardsOf(fn)
+	if len(fn.Blocks) == 0 {
+		return false
+	}
+	seen := map[*ssa.BasicBlock]bool{fn.Blocks[0]: true}
+	work := []*ssa.BasicBlock{fn.Blocks[0]}
+	for len(work) > 0 {
+		x := work[len(work)-1]
+		work = work[:len(work)-1]
+		if x == b {
+			return false
+		}
+		for _, s := range x.Succs {
+			if seen[s] {
+				continue
+			}
+			blocked := false
+			for _, l := range g.edgeLits[edge{x, s}] {
+				if pred(l) {
+					blocked = true
+				}
+			}
+			if blocked {
+				continue
+			}
+			seen[s] = true
+			work = append(work, s)
+		}
+	}
+	return true
 }
